@@ -12,5 +12,5 @@ cd "$SCR/repo" && git init -q . && git add -A >/dev/null && git -c user.email=x@
 if ! git apply "$PATCH"; then echo "MUTANT: patch does not apply"; exit 3; fi
 T=$(cd "$SCR/repo" && PYTHONDONTWRITEBYTECODE=1 timeout 600 /venv/bin/python -m pytest -q -p no:cacheprovider python 2>&1 | tail -1)
 echo "MUTANT tests: $T"
-cd "$HERE" && VERIF_REPO="$SCR/repo" VERIF_WORKERS="${VERIF_WORKERS:-16}" ./check "$PROP" "$TIER" 2>&1 | grep -v "^    \|^  expected\|^  actual" | cut -c1-300 | tail -12
+cd "$HERE" && VERIF_EVIDENCE_DIR="$SCR/evidence" VERIF_REPO="$SCR/repo" VERIF_WORKERS="${VERIF_WORKERS:-16}" ./check "$PROP" "$TIER" 2>&1 | grep -v "^    \|^  expected\|^  actual" | cut -c1-300 | tail -12
 echo "MUTANT check exit: ${PIPESTATUS[0]}"
